@@ -771,7 +771,34 @@ func subsetLayout(r *rand.Rand, f *sfnt.Font, n int, info *Info) {
 		if r.IntN(2) == 0 && minG > 1 {
 			delta = -glyph.ID(1 + r.IntN(int(minG)-1))
 		}
-		gsub.LookupList = append(gsub.LookupList, &gtab.LookupTable{Meta: &gtab.LookupMetaInfo{LookupType: 1}, Subtables: []gtab.Subtable{&gtab.Gsub1_1{Cov: cov, Delta: delta}}})
+		lt := &gtab.LookupTable{Meta: &gtab.LookupMetaInfo{LookupType: 1}, Subtables: []gtab.Subtable{&gtab.Gsub1_1{Cov: cov, Delta: delta}}}
+		if r.IntN(3) == 0 {
+			// a second subtable whose coverage overlaps the first one: for a
+			// glyph covered by both, the first subtable decides
+			cov2 := map[glyph.ID]bool{}
+			var covKeys []glyph.ID
+			for g := range cov {
+				covKeys = append(covKeys, g)
+			}
+			sortGIDs(covKeys) // the PRNG must be consumed in a fixed order
+			for _, g := range covKeys {
+				if r.IntN(2) == 0 {
+					cov2[g] = true
+				}
+			}
+			cov2[gid()] = true
+			var mx2, mn2 glyph.ID = 0, glyph.ID(n)
+			for g := range cov2 {
+				mx2, mn2 = max(mx2, g), min(mn2, g)
+			}
+			d2 := glyph.ID(r.IntN(n - int(mx2)))
+			if d2 == delta && mn2 > 1 {
+				d2 = -glyph.ID(1 + r.IntN(int(mn2)-1))
+			}
+			lt.Subtables = append(lt.Subtables, &gtab.Gsub1_1{Cov: cov2, Delta: d2})
+			info.Classes = append(info.Classes, "layout:gsub1.1-overlapping-subtables")
+		}
+		gsub.LookupList = append(gsub.LookupList, lt)
 		info.Classes = append(info.Classes, "layout:gsub1.1")
 	}
 	if len(gsub.LookupList) > 0 {
